@@ -130,6 +130,9 @@ func (env *specEnv) lvalue(e *Expr) []modLoc {
 // frameFacts: Hn agrees with Ho on every location that existed (< bound) and is
 // not covered by locs.
 func (vc *VC) frameFacts(c *Component, hn, ho, bound string, locs []modLoc) []string {
+	if !strings.HasPrefix(c.Sort, "(Array Int ") {
+		return nil // ghost state (iteration sets, channel counters): no locations to frame
+	}
 	var mine []modLoc
 	for _, l := range locs {
 		if l.Comp.Name == c.Name {
@@ -631,6 +634,17 @@ func (f *Frame) applyContract(x ssa.Instruction, con *Contract, fn *ssa.Function
 			panic(unsupported{fmt.Sprintf("contract of %s: ensures %s: %v", name, cl.Src, err)})
 		}
 		vc.assume(at, t, "ensures of "+name+" ("+cl.Label+")")
+	}
+	// a returned channel whose producer goroutine is started by the callee: this
+	// function becomes the consumer
+	if fn != nil {
+		for i := 0; i < nres; i++ {
+			if isChanType(sig.Results().At(i).Type()) {
+				if v, ok := x.(ssa.Value); ok {
+					f.registerReturnedChan(v, fn, env.names)
+				}
+			}
+		}
 	}
 	// "defines" clauses name the callee's results with specification functions
 	// (e.g. determinism of a key source); they are assumptions, never obligations
